@@ -13,6 +13,8 @@ the specifications `Libs` and `Sketch` talk about:
 The projection is plain Python; every comparison is done by TLC (LibsTrace / SketchTrace)."""
 from __future__ import annotations
 
+from pathlib import Path
+
 import concurrent.futures as cf
 import re
 
@@ -372,7 +374,23 @@ def observe(src: str) -> dict:
     finally:
         signal.alarm(0)
         signal.signal(signal.SIGALRM, old)
-    out = {"status": "accept", "libs": [str(x) for x in libs]}
+    out = {"status": "accept", "libs": [str(x) for x in libs], "collected": [str(x) for x in libs]}
+    # the request as PlatformIO sees it: the lib_deps lines that write_project puts into platformio.ini for that list
+    try:
+        import shutil
+        import tempfile
+        from Reduino.toolchain import pio
+        from .common import scratch
+        from .pio_rec import read_ini
+        d = tempfile.mkdtemp(prefix="c14proj-", dir=str(scratch()))
+        try:
+            pio.write_project(Path(d) / "p", cpp, "COM3", lib_deps=list(libs))
+            ini = read_ini(Path(d) / "p" / "platformio.ini")
+            out["libs"] = [str(x) for x in ini.get("libs", [])]
+        finally:
+            shutil.rmtree(d, ignore_errors=True)
+    except Exception as e:  # noqa: BLE001  (write_project refusing a library list is C13's matter; the collected list stays the observation)
+        out["ini_error"] = f"{type(e).__name__}: {e}"[:200]
     out.update(observe_text(cpp))
     return out
 
